@@ -1,4 +1,6 @@
+import EdVerif.Props.Structural.WellFormed
 import EdVerif.Props.Structural.Ct
+import EdVerif.Props.Structural.CtExact
 import EdVerif.Props.Structural.ProvLabels
 import EdVerif.Props.Structural.Writes
 import EdVerif.Props.Structural.Returns
@@ -14,7 +16,9 @@ checked in parallel and a property file can import just what it needs.
 
 | property | theorem | module |
 |---|---|---|
-| C03 | `ctCheck_ok`, `ctCheck_residual_is_known` | `Structural.Ct` |
+| (all) | `wellFormed_ok` | `Structural.WellFormed` |
+| C03 | `ctCheck_ok` | `Structural.Ct` |
+| C03 (known finding exact) | `ctCheck_residual_is_known` | `Structural.CtExact` |
 | C11(b) | `writesOnly_ok` | `Structural.Writes` |
 | C14 | `errorPathsPure_ok` | `Structural.ErrorPaths` |
 | C15 | `guardDominates_ok` | `Structural.Guards` |
@@ -26,14 +30,15 @@ open EdVerif.Ssa EdVerif.Gen.Ssa
 
 /-- all structural predicates hold of the regenerated program -/
 theorem structural_all :
-    ctCheck prog hints Policy.ct ((Policy.ctExemptions ++ Policy.ctDischargedGuards) ++ Policy.ctKnownFindings) = true
+    wellFormed prog hints = true
+    ∧ ctCheck prog hints Policy.ct ((Policy.ctExemptions ++ Policy.ctDischargedGuards) ++ Policy.ctKnownFindings) = true
     ∧ ctCheckExact prog hints Policy.ct (Policy.ctExemptions ++ Policy.ctDischargedGuards) Policy.ctKnownFindings = true
     ∧ writesOnly prog hints Policy.writes = true
     ∧ returnsFresh prog hints Policy.returns = true
     ∧ globalsDiscipline prog hints Policy.globals = true
     ∧ errorPathsPure prog hints Policy.errorPaths = true
     ∧ guardDominates prog hints Policy.guards = true :=
-  ⟨ctCheck_ok, ctCheck_residual_is_known, writesOnly_ok, returnsFresh_ok, globalsDiscipline_ok,
+  ⟨wellFormed_ok, ctCheck_ok, ctCheck_residual_is_known, writesOnly_ok, returnsFresh_ok, globalsDiscipline_ok,
    errorPathsPure_ok, guardDominates_ok⟩
 
 end EdVerif.Props.Structural
